@@ -1249,8 +1249,18 @@ def symbolic_map(interp, it, gen, node, env, keep_and_val, kind):
         n = z3.simplify(sym_remaining(it))
         ln = smt.fresh_int('flen')
         interp.ctx.assume(z3.And(0 <= ln, ln <= n))
+        arr = smt.fresh_arr('filtered')
+        q, w = smt.fresh_int('q'), smt.fresh_int('w')
+        if isinstance(it, SrcIter) and it.arr is None:       # filter of a range: ints of that range
+            lo = it.range_lo + it.pos
+            interp.ctx.facts.append(z3.ForAll([q], z3.Implies(z3.And(0 <= q, q < ln), z3.And(
+                smt.is_int(z3.Select(arr, q)), lo <= smt.ival(z3.Select(arr, q)), smt.ival(z3.Select(arr, q)) < lo + n))))
+        elif isinstance(it, SrcIter) and isinstance(getattr(node, 'elt', None), ast.Name) and isinstance(gen.target, ast.Name) and node.elt.id == gen.target.id:
+            # [x for x in seq if ...]: every kept element is an element of seq
+            interp.ctx.facts.append(z3.ForAll([q], z3.Implies(z3.And(0 <= q, q < ln), z3.Exists([w], z3.And(
+                0 <= w, w < n, z3.Select(arr, q) == z3.Select(it.arr, it.pos + w))))))
         sym_exhaust(it)
-        return Seq(smt.fresh_arr('filtered'), ln, kind, 'Fresh')
+        return Seq(arr, ln, kind, 'Fresh')
     return drain(interp, MapIter(it, keep_and_val), kind, node)
 
 
@@ -1819,7 +1829,41 @@ def _zip_longest(interp, args, kw, node):
 
 @_b('islice')
 def _islice(interp, args, kw, node):
-    raise Unsupported('islice (handled by the sidecar summary where contracted)')
+    """islice over an iterator of concrete remaining length with concrete bounds (T2)"""
+    it = get_iter(interp, args[0], node)
+    bounds = list(args[1:])
+    if is_concrete_iter(it) and all(b is None or is_conc_int(b) for b in bounds):
+        import itertools as _it
+        items = iter_concrete(interp, it)
+        return ListIter(list(_it.islice(items, *bounds)))
+    raise Unsupported('islice over a symbolic iterator / symbolic bounds')
+
+
+@_b('groupby')
+def _groupby(interp, args, kw, node):
+    """itertools.groupby over an iterator of CONCRETE remaining length (T2): maximal runs of consecutive elements with
+    == keys; used for header-only instances and shape-bounded symbolic execution (cells stay symbolic)"""
+    it = get_iter(interp, args[0], node)
+    key = kw.get('key', args[1] if len(args) > 1 else None)
+    if not is_concrete_iter(it):
+        raise Unsupported('groupby over an iterator of symbolic length (needs a group-level contract)')
+    items = iter_concrete(interp, it)
+    groups, cur, curk = [], None, None
+    for x in items:
+        k = interp.call(key, [x], {}) if key is not None else x
+        if cur is not None and interp.truth(py_equal(interp, curk, k)):
+            cur.append(x)
+        else:
+            cur, curk = [x], k
+            groups.append((k, cur))
+    return ListIter([(k, ListIter(g)) for k, g in groups])
+
+
+@_b('product')
+def _product(interp, args, kw, node):
+    import itertools as _it
+    lists = [iter_concrete(interp, a) for a in args]
+    return ListIter([tuple(t) for t in _it.product(*lists)])
 
 
 def _opfn(astop):
@@ -1838,7 +1882,8 @@ EXTERNAL = {
     ('operator', 'itemgetter'): BUILTINS['itemgetter'], ('operator', 'attrgetter'): BUILTINS['attrgetter'],
     ('functools', 'partial'): BUILTINS['partial'], ('itertools', 'chain'): BUILTINS['chain'],
     ('itertools', 'count'): BUILTINS['count'], ('itertools', 'zip_longest'): BUILTINS['zip_longest'],
-    ('itertools', 'islice'): BUILTINS['islice'],
+    ('itertools', 'islice'): BUILTINS['islice'], ('itertools', 'groupby'): BUILTINS['groupby'],
+    ('itertools', 'product'): BUILTINS['product'],
 }
 
 
